@@ -34,8 +34,18 @@ fn customs(bytes: &[u8]) -> Option<Vec<(String, Vec<u8>)>> {
                 continue;
             }
             // payload after the name
+            // (the name length is read as written: it may be a padded LEB)
             let full = &bytes[s.payload.clone()];
-            let nlen = crate::decode::leb_len(name.len() as u64) + name.len();
+            let (mut len, mut shift, mut used) = (0usize, 0u32, 0usize);
+            for b in full.iter().take(5) {
+                len |= ((*b & 0x7f) as usize) << shift;
+                shift += 7;
+                used += 1;
+                if *b & 0x80 == 0 {
+                    break;
+                }
+            }
+            let nlen = used + len;
             v.push((name, full[nlen.min(full.len())..].to_vec()));
         }
     }
@@ -153,7 +163,7 @@ pub fn check(_ctx: &Ctx, input: &Input) -> CaseResult {
 fn run(ctx: &Ctx) {
     let plans = [GenPlan {
         gen: "customs",
-        cases: ctx.tier.pick(30_000, 600_000),
+        cases: ctx.tier.pick(200_000, 2_000_000),
         min_len: 0,
         max_len: 600,
     }];
